@@ -2,8 +2,8 @@
   PV.Model.ChanX — the short-read/short-write stream of PV.Model.BufFile, extended with `_read` calls that
   RAISE (socket.timeout from a Channel with a timeout, OSError): `fails` has one flag per `_read` call; a raising
   call delivers nothing and consumes nothing.  The BufferedFile model is unchanged: it already says what state a
-  raising `_read` leaves behind (read(n): the chunks fetched so far stay in `_rbuffer`; read() and readline():
-  they are held in a local and are lost — see the witnesses in PV.Props.C42).  Mathlib-free, total.
+  raising `_read` leaves behind: everything fetched so far stays in (read(n)) or is put back into (read(),
+  readline(), since /repo 3937ccc) the read-ahead buffer.  Mathlib-free, total.
 -/
 import PV.Model.BufFile
 namespace PV.BufFile
@@ -22,5 +22,47 @@ def chanOpsX : Ops ChanX where
     | _ => ({ c := (chanOps.read s.c rp n).1, fails := s.fails.tail }, (chanOps.read s.c rp n).2)
   write s rp d := ({ s with c := (chanOps.write s.c rp d).1 }, (chanOps.write s.c rp d).2)
   bound s _ := s.c.inp.length
+
+/-! ## the code BEFORE /repo 3937ccc (kept for the legacy witnesses): a raising fetch inside `read()` /
+    `readline()` dropped the chunks fetched so far in that call -/
+
+def readAllLoopOld {σ : Type} (o : Ops σ) : Nat → BF σ → Bytes → Res σ Bytes
+  | 0, f, _ => (f, .error .fuel)
+  | fuel+1, f, acc =>
+    match o.read f.s f.realpos f.dflt with
+    | (s', .error e) => ({ f with s := s' }, .error e)
+    | (s', .ok d) =>
+      if d.isEmpty then ({ f with s := s' }, .ok acc)
+      else readAllLoopOld o fuel
+        { f with s := s', realpos := f.realpos + d.length, pos := f.pos + d.length } (acc ++ d)
+
+/-- `read()` (no size) as it was -/
+def readAllOld {σ : Type} (o : Ops σ) (f : BF σ) : Res σ Bytes :=
+  if f.closed then (f, .error .closed)
+  else if !f.rd then (f, .error .notReadable)
+  else readAllLoopOld o (o.bound f.s f.realpos + 1) { f with rbuf := [], pos := f.pos + f.rbuf.length } f.rbuf
+
+def readlineLoopOld {σ : Type} (o : Ops σ) (size : Option Nat) : Nat → BF σ → Bytes → Res σ RL
+  | 0, f, _ => (f, .error .fuel)
+  | fuel+1, f, line =>
+    match rlLimit size f.bufsize line with
+    | none =>
+      let sz := size.getD 0
+      ({ f with rbuf := line.drop sz }, .ok (.brk (line.take sz) true))
+    | some n =>
+      if line.contains LF then (f, .ok (.brk line false))
+      else match o.read f.s f.realpos n with
+        | (s', .error e) => ({ f with s := s' }, .error e)
+        | (s', .ok d) =>
+          if d.isEmpty then
+            ({ f with s := s', rbuf := [], pos := f.pos + line.length }, .ok (.eof line))
+          else readlineLoopOld o size fuel
+            { f with s := s', realpos := f.realpos + d.length } (line ++ d)
+
+/-- `readline(size)` as it was -/
+def readlineOld {σ : Type} (o : Ops σ) (f : BF σ) (size : Option Nat) : Res σ Bytes :=
+  if f.closed then (f, .error .closed)
+  else if !f.rd then (f, .error .notReadable)
+  else readlinePost (readlineLoopOld o size (o.bound f.s f.realpos + 1) f f.rbuf)
 
 end PV.BufFile
